@@ -108,6 +108,8 @@ def run_shard(spec):
                 continue
             for tag, prog in faultgrid.vla_programs(len_lit=lit):
                 items.append((f'{tag}/literal{lit}', prog, [['0']], lambda a, lit=lit: abs(lit) <= 9))
+        for tag, prog in faultgrid.packed_twin_programs():
+            items.append((tag, prog, [[str(i)] for i in (0, 1, 2, 3, 4, 7, 8, 9, 10, 11, -1)], lambda a: True))
         from ..gen import idioms
         for tag, prog in idioms.narrowing_programs():
             items.append((tag, prog, idioms.NARROW_ARGS, lambda a: True))
